@@ -300,6 +300,25 @@ def undefined_type(prog, rng):
     return put(prog, path, ("named", fresh(prog, rng))), "UndefinedType", ("texpr", path)
 
 
+def undefined_type_of_a_called_parameter(prog, rng):
+    """the type of a parameter of a procedure that IS CALLED somewhere (with a typed argument in that position) becomes an
+    undefined name: exactly `undefined type`, and in particular no `argument type mismatch` at the calls"""
+    called = {}
+    for cat, path, node, _ in sites(prog):
+        if cat == "stmt" and node[0] == "call" and node[2]:
+            called.setdefault(node[1], len(node[2]))
+    c = []
+    for di, d in enumerate(prog):
+        if d[0] == "proc" and d[1] in called:
+            for i, (_, _, ty) in enumerate(d[2]):
+                if ty[0] == "named":
+                    c.append((di, 2, i, 2))
+    if not c:
+        return None
+    path = rng.choice(c)
+    return put(prog, path, ("named", fresh(prog, rng))), "UndefinedType", ("texpr", path)
+
+
 def not_a_type(prog, rng):
     c = [s for s in sites(prog) if s[0] == "texpr" and s[2][0] == "named"]
     if not c:
@@ -815,7 +834,7 @@ INJECTORS = [
 ]
 
 # all semantic/declaration single faults, including the two about unary minus and name equivalence of array types
-ALL_INJECTORS = INJECTORS + [negated_boolean, negated_boolean_operand, argument_other_array_type]
+ALL_INJECTORS = INJECTORS + [negated_boolean, negated_boolean_operand, argument_other_array_type, undefined_type_of_a_called_parameter]
 
 
 # single faults whose diagnosis is a known finding (known_findings.jsonl); class predicate = the injector itself
